@@ -1090,3 +1090,67 @@ Example C02_hodograph_surface_end_hypotheses_satisfiable :
   length Uu = (3 + 2 + 1)%nat /\ length Uv = (4 + 2 + 1)%nat /\
   knR Uu (3 - 1) < knR Uu 3 /\ knR Uv (4 - 1) < knR Uv 4 /\ derivative_surface_code_returns 2 2 Uu Uv 3 4.
 Proof. exact hodograph_surface_end_hypotheses_satisfiable. Qed.
+
+(* ====================== TRANSLATOR TIE (Proofs/GenTie*.v) ======================
+   coq/Gen/*.v is the Gallina rendering of the Python source produced by harness/pytrans.py; every run of ./check regenerates it
+   from /repo and compares it function by function with the committed text (evidence: translator_tie).  The theorems below say
+   that the hand-written model (the subject of the theorems above) computes, for ALL inputs satisfying the stated
+   well-formedness, exactly what the translated source computes.  This block stays LAST in the file: its imports shadow
+   model names. *)
+From Coq Require Import List QArith Reals Qreals Lia Lra Arith Bool ZArith.
+From NV Require Import Scalar.Ops Model.Common Model.Basis Model.Knots Model.KnotIns Model.KnotRem Model.LinAlg Model.Degree
+  Gen.Prelude Gen.LinalgInternal Gen.Linalg Gen.Knotvector Gen.Helpers
+  Proofs.GenTieSums Proofs.GenTieLinAlg Proofs.GenTieSubst Proofs.GenTieLU Proofs.GenTieLUSolve Proofs.GenTieKnotRem Proofs.GenTieDegree
+  Proofs.GenTieLib Proofs.GenTieKnots Proofs.GenTieSpan Proofs.GenTieBasis Proofs.GenTieBasisOne
+  Proofs.GenTieDersOne Proofs.GenTieDersLib Proofs.GenTieDers Proofs.GenTieKnotIns.
+Local Open Scope nat_scope.
+
+From NV Require Import Model.Derivs Proofs.GenTieDerivCpts.
+
+(* [G] helpers.curve_deriv_cpts.  The source fills its result with None placeholders and row k keeps min(k, r+1) of them: the
+   generated code has slots of type option T, injPK dim r M = the model's rows M (the defined points) injected with Some and
+   padded with placeholder points to r+1 entries.  wf: rs = (r1, r2), r1 <= r2 < len(cpts), r2 + degree < len(kv),
+   deriv_order <= degree + 1 *)
+Theorem C02_gen_curve_deriv_cpts_R : forall (dim p : nat) (kv : list R) (cpts : list (list R)) (r1 r2 order : nat),
+  r1 <= r2 -> r2 < length cpts -> r2 + p < length kv -> order <= S p ->
+  HelpersB.curve_deriv_cpts Rops (Z.of_nat dim) (Z.of_nat p) kv cpts [Z.of_nat r1; Z.of_nat r2] (Z.of_nat order) =
+  GOk (injPK dim (r2 - r1) (Derivs.curve_deriv_cpts Rops p kv cpts r1 r2 order)).
+Proof. exact curve_deriv_cpts_tie_R. Qed.
+Print Assumptions C02_gen_curve_deriv_cpts_R.
+Theorem C02_gen_curve_deriv_cpts_Q : forall (dim p : nat) (kv : list Q) (cpts : list (list Q)) (r1 r2 order : nat),
+  r1 <= r2 -> r2 < length cpts -> r2 + p < length kv -> order <= S p ->
+  HelpersB.curve_deriv_cpts Qops (Z.of_nat dim) (Z.of_nat p) kv cpts [Z.of_nat r1; Z.of_nat r2] (Z.of_nat order) =
+  GOk (injPK dim (r2 - r1) (Derivs.curve_deriv_cpts Qops p kv cpts r1 r2 order)).
+Proof. exact curve_deriv_cpts_tie_Q. Qed.
+Print Assumptions C02_gen_curve_deriv_cpts_Q.
+
+(* [G] helpers.surface_deriv_cpts (as repaired).  Its table PKL has (order+1) x (order+1) x size_u x size_v points filled with None
+   placeholders; the model returns the defined entries only.  The generated code succeeds and every entry the model defines
+   (k <= du, l <= min(order-k, dv), k+i <= r, l+j <= s) is the model's point, injected with Some.
+   wf: rs = (r1, r2), r1 <= r2 < size_u; ss = (s1, s2), s1 <= s2 < size_v; size_u * size_v <= len(cpts); the knots read exist *)
+From NV Require Import Proofs.GenTieArr4 Proofs.GenTieDerivSurf.
+Theorem C02_gen_surface_deriv_cpts_R : forall (dim pu pv : nat) (Uu Uv : list R) (P : list (list R)) (su sv r1 r2 s1 s2 order : nat),
+  r1 <= r2 -> r2 < su -> s1 <= s2 -> s2 < sv -> su * sv <= length P -> r2 + pu < length Uu -> s2 + pv < length Uv ->
+  exists PKL, HelpersB.surface_deriv_cpts Rops (Z.of_nat dim) [Z.of_nat pu; Z.of_nat pv] [Uu; Uv] P [Z.of_nat su; Z.of_nat sv]
+                [Z.of_nat r1; Z.of_nat r2] [Z.of_nat s1; Z.of_nat s2] (Z.of_nat order) = GOk PKL
+    /\ forall k l i j, k <= Nat.min pu order -> l <= Nat.min (order - k) (Nat.min pv order) -> k + i <= r2 - r1 -> l + j <= s2 - s1 ->
+         nth j (nth i (nth l (nth k PKL []) []) []) [] =
+         map Some (pkl_get (Derivs.surface_deriv_cpts Rops pu pv Uu Uv P su sv r1 r2 s1 s2 order) k l i j).
+Proof. exact surface_deriv_cpts_tie_R. Qed.
+Print Assumptions C02_gen_surface_deriv_cpts_R.
+Theorem C02_gen_surface_deriv_cpts_Q : forall (dim pu pv : nat) (Uu Uv : list Q) (P : list (list Q)) (su sv r1 r2 s1 s2 order : nat),
+  r1 <= r2 -> r2 < su -> s1 <= s2 -> s2 < sv -> su * sv <= length P -> r2 + pu < length Uu -> s2 + pv < length Uv ->
+  exists PKL, HelpersB.surface_deriv_cpts Qops (Z.of_nat dim) [Z.of_nat pu; Z.of_nat pv] [Uu; Uv] P [Z.of_nat su; Z.of_nat sv]
+                [Z.of_nat r1; Z.of_nat r2] [Z.of_nat s1; Z.of_nat s2] (Z.of_nat order) = GOk PKL
+    /\ forall k l i j, k <= Nat.min pu order -> l <= Nat.min (order - k) (Nat.min pv order) -> k + i <= r2 - r1 -> l + j <= s2 - s1 ->
+         nth j (nth i (nth l (nth k PKL []) []) []) [] =
+         map Some (pkl_get (Derivs.surface_deriv_cpts Qops pu pv Uu Uv P su sv r1 r2 s1 s2 order) k l i j).
+Proof. exact surface_deriv_cpts_tie_Q. Qed.
+Print Assumptions C02_gen_surface_deriv_cpts_Q.
+Example C02_gen_nonvacuous :
+  HelpersB.curve_deriv_cpts Qops 2 3 [0; 0; 0; 0; 1#4; 1#2; 1#2; 3#4; 1; 1; 1; 1]%Q
+    [[0; 0]; [1; 2]; [2; 3]; [4; 3]; [5; 1]; [6; 0]; [7; 2]; [9; 3]]%Q [2%Z; 5%Z] 1 =
+    GOk [[[Some 2; Some 3]; [Some 4; Some 3]; [Some 5; Some 1]; [Some 6; Some 0]];
+         [[Some 12; Some 0]; [Some 6; Some (-12)]; [Some 6; Some (-6)]; [None; None]]]%Q.
+Proof. vm_compute; reflexivity. Qed.
+
